@@ -177,7 +177,7 @@ def run_one(workdir, idx, rnd, mode, ct):
     # are EQUAL to the first module's, and its calls must still be attributed to its own functions
     twin = None
     paths = [path]
-    if rnd.random() < 0.15:
+    if rnd.random() < 0.15 and not many:       # (the 1100-generator program stays single: its case term is big enough)
         tname = name + "_twin"
         tpath = os.path.join(workdir, tname + ".py")
         with open(tpath, "w") as f:
@@ -215,10 +215,12 @@ def run_one(workdir, idx, rnd, mode, ct):
     if twin is not None and rnd.random() < 0.5:
         only_file = rnd.choice(paths)
 
+    no = rnd.choice([False, False, None, 0, ""])        # a filter may say no with any falsy value (re.match -> None)
+
     def admit(code):
         if only_file is not None and code.co_filename != only_file:
-            return False
-        return code.co_filename in pathset and (code.co_name, code.co_firstlineno) not in rejected
+            return no
+        return (code.co_filename in pathset and (code.co_name, code.co_firstlineno) not in rejected) or no
     use_filter = rnd.random() < 0.8 or only_file is not None
     order = [mod, twin] if twin is not None and rnd.random() < 0.5 else ([twin, mod] if twin is not None else [mod])
     draws = []
@@ -233,10 +235,19 @@ def run_one(workdir, idx, rnd, mode, ct):
         """one tracing session: a fresh CallTracer and recorder around the workload of the given modules"""
         del draws[:]
         logger = ListLogger()
-        tracer = mt.CallTracer(logger, k, admit if use_filter else (lambda code: code.co_filename in pathset), rate)
+        filt = admit if use_filter else (lambda code: code.co_filename in pathset)
+        old = sys.getprofile()
+        # through the public entry point: trace_calls installs its CallTracer, the recorder is put in front of it for the
+        # workload, and the context is left the normal way afterwards -- what is logged while LEAVING it counts too
+        cm = mt.trace_calls(logger, k, filt, rate)
+        cm.__enter__()
+        tracer = sys.getprofile()
+        if not hasattr(tracer, "traces"):           # trace_calls no longer installs the CallTracer itself: drive one directly
+            cm.__exit__(None, None, None)
+            cm = None
+            tracer = mt.CallTracer(logger, k, filt, rate)
         rec = Recorder(tracer, logger, paths, vrec.R, k, admit if use_filter else (lambda code: True), ct, draws)
         random.randrange = fake_randrange
-        old = sys.getprofile()
         crashed = None
         sys.setprofile(rec)
         try:
@@ -246,11 +257,41 @@ def run_one(workdir, idx, rnd, mode, ct):
                 if twin is not None and rnd.random() < 0.5:     # and once more, the other way round
                     for _m in reversed(order):
                         _m.main()
+                if getattr(order[0], "make_held", None) is not None:
+                    # a closure whose only reference is a local of the bottom frame of another thread's stack, called from
+                    # there.  This thread's profiler is off while the other one runs (one event stream, no interleaving).
+                    import _thread
+                    import threading
+                    done = threading.Lock()
+                    done.acquire()
+                    terr = []
+
+                    def _bottom():
+                        sys.setprofile(rec)
+                        try:
+                            held = order[0].make_held()
+                            held(order[0].V[0])
+                            held(order[0].V[1], order[0].V[2])
+                        except BaseException as e:
+                            terr.append(f"{type(e).__name__}: {e}")
+                        finally:
+                            sys.setprofile(None)
+                            done.release()
+                    sys.setprofile(None)
+                    _thread.start_new_thread(_bottom, ())
+                    done.acquire()
+                    sys.setprofile(rec)
+                    if terr:
+                        crashed = terr[0]
             except BaseException as e:       # the workload itself failed: not the tracer's business, but note it
                 crashed = f"{type(e).__name__}: {e}"
         finally:
-            sys.setprofile(old)
             random.randrange = real_randrange
+            if cm is not None:
+                sys.setprofile(tracer)
+                logger.current = None
+                cm.__exit__(None, None, None)
+            sys.setprofile(old)
         # drop references to live generators so their frames finish outside tracing (no events recorded)
         events = [e.replace("DRAW", "0") for e in rec.events]
         impl = []
@@ -300,7 +341,8 @@ def run_one(workdir, idx, rnd, mode, ct):
         del sys.modules[name + "_twin"]
     stats = {"events": len(events), "frames": len(rec.frames), "logged": len(impl), "rate": rate, "k": k,
              "filter": use_filter, "rejected": sorted(f"{n}@{l}" for n, l in rejected), "crashed": crashed, "errors": rec.errors[:3],
-             "twin": twin is not None, "twin_one_file_admitted": only_file is not None, "many_live": many, "gens": src.count("yield"), "awaits": src.count("await Susp"), "residue": len(residue)}
+             "twin": twin is not None, "twin_one_file_admitted": only_file is not None, "many_live": many, "gens": src.count("yield"), "awaits": src.count("await Susp"), "residue": len(residue),
+             "bottom_frame_closure": "def make_held" in src}
     first = {"term": term, "stats": stats, "src": src if (idx < 2 or os.environ.get("VERIF_DEBUG")) else None, "prog": name}
     return [first] + ([second] if second is not None else [])
 
